@@ -1,6 +1,9 @@
 mod common;
+mod corpus_gen;
 mod json;
+mod l1;
 mod seqx;
+mod thrx;
 mod vals;
 
 use common::*;
@@ -162,6 +165,98 @@ fn seqx_replay(path: &str, property: &str) -> i32 {
     }
 }
 
+fn thrx_main(args: &Args) -> i32 {
+    if let Some(path) = args.get("replay") {
+        return thrx_replay(path, args.get("property").unwrap_or(""));
+    }
+    let property = args.get("property").expect("--property").to_string();
+    let thorough = args.get("tier") == Some("thorough");
+    let drivers = thrx::drivers_for(&property, thorough);
+    if args.get("count").is_some() {
+        println!("{}", drivers.len());
+        return 0;
+    }
+    if args.get("list").is_some() {
+        for (i, d) in drivers.iter().enumerate() {
+            println!("{i} {}", d.label);
+        }
+        return 0;
+    }
+    let idx = args.usize("driver", usize::MAX);
+    let d = match drivers.get(idx) {
+        Some(d) => d,
+        None => {
+            eprintln!("no driver {idx}");
+            return 2;
+        }
+    };
+    let max_bound = args.usize("bound", if thorough { 3 } else { 2 });
+    let max_execs = args.usize("max-execs", if thorough { 3_000_000 } else { 300_000 }) as u64;
+    let t0 = std::time::Instant::now();
+    let r = thrx::explore_driver(d, &property, max_bound, max_execs);
+    emit(
+        "DRIVER",
+        J::obj()
+            .set("label", d.label.clone())
+            .set("threads", d.threads.len())
+            .set("schedules", r.schedules)
+            .set("by_bound", J::Arr(r.by_bound.iter().map(|(b, p, n)| J::obj().set("bound", *b).set("rw_policy", p.clone()).set("schedules", *n)).collect()))
+            .set("preemption_bound_completed", if r.exec_cap_hit { J::Null } else { J::Int(max_bound as i64) })
+            .set("exec_cap_hit", r.exec_cap_hit)
+            .set("max_points", r.max_points)
+            .set("points_total", r.points_total)
+            .set("deadlocks", r.deadlocks)
+            .set("distinct_observations", r.distinct_observations)
+            .set("sample", r.sample.clone())
+            .set("wall_s", t0.elapsed().as_secs_f64()),
+    );
+    for v in &r.violations {
+        emit("VIOLATION", v.to_json());
+    }
+    emit("DONE", J::obj());
+    0
+}
+
+fn thrx_replay(path: &str, property: &str) -> i32 {
+    let src = std::fs::read_to_string(path).expect("read replay file");
+    let j = json::parse(&src).expect("parse replay file");
+    let j = j.get("replay").cloned().unwrap_or(j);
+    let d = thrx::Driver::from_json(j.get("driver").expect("driver")).expect("driver spec");
+    let pol = match j.get("rw_policy").and_then(|x| x.as_str()) {
+        Some("writer-preference") => vsched::RwPolicy::WriterPreference,
+        _ => vsched::RwPolicy::ReadersBarge,
+    };
+    let schedule: Vec<usize> = j.get("schedule").and_then(|x| x.as_arr()).unwrap().iter().map(|x| x.as_i64().unwrap() as usize).collect();
+    let prep = thrx::Prepared::new(&d);
+    let mut runs = Vec::new();
+    for _ in 0..2 {
+        let out = vsched::run(&schedule, &[], prep.make_threads(), pol, 20_000);
+        if let Some(dv) = &out.diverged {
+            println!("MACHINERY-FAILURE: {dv}");
+            return 3;
+        }
+        let q = thrx::check_execution(&prep, &out);
+        runs.push((out.render_schedule(), q.observation.clone(), q.findings.iter().map(|f| format!("{}/{}: {}", f.property, f.monitor, f.detail)).collect::<Vec<_>>(), q.findings.iter().any(|f| property.is_empty() || f.property == property)));
+    }
+    for l in &runs[0].0 {
+        println!("{l}");
+    }
+    println!("observed: {}", runs[0].1);
+    for f in &runs[0].2 {
+        println!("    FINDING {f}");
+    }
+    if runs[0] != runs[1] {
+        println!("MACHINERY-FAILURE: replay is not deterministic");
+        return 3;
+    }
+    println!("replayed twice with identical observations; violation reproduced: {}", runs[0].3);
+    if runs[0].3 {
+        1
+    } else {
+        0
+    }
+}
+
 fn main() {
     vsched::install_quiet_panic_hook();
     cachelito_core::verif_hooks::install(vsched::clock_now, vsched::atomic_point);
@@ -176,6 +271,7 @@ fn main() {
             vsched::sequential_mode(true);
             seqx_main(&args)
         }
+        "thrx" => thrx_main(&args),
         other => {
             eprintln!("unknown engine {other}");
             2
